@@ -133,6 +133,8 @@ def make_newmark_case(r, np, ci):
     nnl = int(r.integers(0, 4)) if r.random() < 0.5 else 0
     if n >= 2 and r.random() < 0.35:
         nrf = int(r.integers(1, max(2, n // 2 + 1)))
+        if n >= 5 and r.random() < 0.4:
+            nrf = n - 1 - int(r.integers(0, 2))        # large rf sets (4, 5 DOF)
         rfmode = ["leading", "trailing", "interleaved"][int(r.integers(0, 3))]
         if nnl and r.random() < 0.7:
             rfmode = "trailing"
@@ -246,8 +248,20 @@ def make_newmark_case(r, np, ci):
             "nlkinds": sorted(set(kinds)), "wh": round(gmax, 4),
             "undamped": bool(not np.any(bd)),
             "nl_with_rf_not_trailing": bool(nl and rfmode in ("leading", "interleaved"))}
-    return dict(m=m_in, b=b_in, k=k_in, h=h, rf=(rf if len(rf) else None), M=M, B=B, K=K,
-                F=F, d0=d0, v0=v0, nl=nl, n=n, nt=nt, nonrf=nonrf, tags=tags)
+    # the rf argument is a set: hand it over unsorted now and then (ends in place and
+    # interior shuffled for the larger ones -- such a vector still is not a range)
+    rf_arg = rf.copy()
+    if len(rf) >= 2 and r.random() < 0.4:
+        if len(rf) >= 4 and r.random() < 0.6:
+            mid = r.permutation(rf[1:-1])
+            if np.array_equal(mid, rf[1:-1]):
+                mid = mid[::-1]
+            rf_arg = np.concatenate([rf[:1], mid, rf[-1:]])
+        else:
+            rf_arg = r.permutation(rf)
+        tags["rf_unsorted"] = bool(np.any(np.diff(rf_arg) < 0))
+    return dict(m=m_in, b=b_in, k=k_in, h=h, rf=(rf_arg if len(rf) else None), M=M, B=B,
+                K=K, F=F, d0=d0, v0=v0, nl=nl, n=n, nt=nt, nonrf=nonrf, tags=tags)
 
 
 def run_newmark_case(sh, np, ode, rec, C, r, case):
